@@ -23,7 +23,7 @@ def main(tier, seed):
     rpts = [M.real_point(tf, p) for p in univ]
     vocab, raising = qtie.vocabulary()
     c = qtie.core(vocab)
-    qs = list(vocab) + raising + qtie.depth1(c) + qtie.twin_compounds()
+    qs = list(vocab) + raising + qtie.depth1(c) + qtie.twin_compounds() + qtie.deep_chains()
     n_exh = len(qs)
     n_rand = 1500 if tier == "quick" else 40000
     for _ in range(n_rand):
